@@ -109,7 +109,9 @@ def cases(tier, seed):
     if tier != "quick":
         for text in ["ab", "if", "A+", "a1"]:
             for kw in (None, r"\w+"):
-                out.append({"name": "%r|declared|kw=%s|icase" % (text, kw), "params": {"text": text, "form": "declared", "kw": kw, "N": N, "icase": True}, "budget_s": 1500})
+                # case folding of symbolic characters is expensive (measured: N=4 over all ASCII does not exhaust in 1 500 s)
+                out.append({"name": "%r|declared|kw=%s|icase" % (text, kw), "params": {"text": text, "form": "declared", "kw": kw, "N": 3, "icase": True,
+                                                                                      "alphabet": "aAbBiIfF1+ x"}, "budget_s": 1500})
     # the identifier-like regex terminal under another name (sorting after / before the string terminal's name)
     for text, form, kw in [("if", "inline", r"\w+"), ("if", "declared", r"\w+"), ("ab", "inline", r"[a-z]+"), ("ab", "declared", None), ("+", "inline", None)]:
         for idname in ("zword", "Aid"):
@@ -190,8 +192,9 @@ def build(params, symbolic):
         if shape_problem:
             return shape_problem
         n = length_of(w, N)
+        alpha = params.get("alphabet")
         for i in range(n):
-            if w[i] > "\x7f":
+            if w[i] > "\x7f" or (alpha and w[i] not in alpha):
                 raise Pre()
         try:
             tree = parser.parse(w)
